@@ -357,6 +357,12 @@ class Extremes(Sub):
             for m in LADDER:
                 for sgn in (1, -1):
                     yield [fn, sgn * m]
+            # the edges of the domains: the doubles next to +-1 on either side, next to 0, and a hair beyond
+            for x in (1.0, math.nextafter(1.0, 2.0), math.nextafter(1.0, 0.0), 1 + 1e-13, 1 + 5e-13, 1 - 1e-13, 1.0000000001, 0.9999999999):
+                for sgn in (1, -1):
+                    yield [fn, sgn * x]
+            for x in (0.0, -0.0):
+                yield [fn, x]
 
     def check(self, env, case):
         fn, x = case
